@@ -427,6 +427,10 @@ class C17Executor(Executor):
         return super().b_len(st, args, kwargs, node)
 
     def get_index(self, st, base, idx, node):
+        if isinstance(base, VExt) and base.sort == "AttrDict":
+            # round 6: attrs[name] -- any value (str or None); KeyError when absent
+            self.exc_any(st.fork(), f"{self.loc(node)} attribute lookup")
+            return [(st.fork(), VUnk("attr_value")), (st, VStr(z3.String(fresh_name("attr_value"))))]
         o = self._ol(st, base)
         if o is None:
             return super().get_index(st, base, idx, node)
@@ -440,6 +444,10 @@ class C17Executor(Executor):
             return self.ol_top(st, base, node)
         if c == 0 and o.data["root"] is not None and not self.feasible(st.pc, o.data["blen"] < 1):
             return [(st, VRef(o.data["root"]))]
+        if c is not None and c >= 0 and o.data["ekind"] == "str" and not tail and o.data["root"] is None:
+            # round 6: piece c of a split result: some string; IndexError when there are fewer pieces
+            s2 = self.fork_raise(st, o.data["blen"] <= c, "IndexError")
+            return [] if s2 is None else [(s2, VStr(z3.String(fresh_name("piece"))))]
         self.unsupported(node, f"index {c} of open list")
 
     def ol_top(self, st, base, node):
@@ -511,6 +519,11 @@ class C17Executor(Executor):
                 parts = [n.key, n.value, n.generators[0].target] + list(n.generators[0].ifs)
                 if all(isinstance(x, pure) for p in parts for x in ast.walk(p)):
                     return [(r[0][0], VExt("AttrDict"))]   # pure comprehension over (name, value) pairs: cannot raise
+                if self._pure_comprehension(n):
+                    # round 6: str methods on the loop variables (`k.lower()`): still a dict of attribute values; a method on a
+                    # value may meet None -> may raise
+                    self.exc_any(r[0][0].fork(), f"{self.loc(n)} method call on an attribute name / value in a comprehension")
+                    return [(r[0][0], VExt("AttrDict"))]
         return super().e_DictComp(n, st)
 
 
@@ -521,6 +534,8 @@ class C17Executor(Executor):
         self.opaque_str = opaque_str        # only for the contract that asks for it (EXECUTOR_KW); other users are unaffected
 
     def contains(self, st, container, item, node):
+        if isinstance(container, VExt) and container.sort == "AttrDict":
+            return [(st, VBool(z3.Bool(fresh_name("has_attr"))))]       # round 6: any attribute may or may not be present
         if self.opaque_str and isinstance(container, VStr) and isinstance(item, VStr) and container.const() is None:
             return [(st, VBool(STR_HAS(container.t, item.t)))]
         return super().contains(st, container, item, node)
@@ -564,7 +579,7 @@ def m_lower(ex, st, args, kwargs, node):
 def m_split(ex, st, args, kwargs, node):
     v, blen = mk_olist(ex, st, fresh_name("split"), "str")
     st.heap[v.ref].fresh = True
-    st.assume(blen >= 0)
+    st.assume(blen >= (1 if len(args) >= 2 and not isinstance(args[1], VNoneT) else 0))     # with a separator: never empty
     return [(st, v)]
 
 
